@@ -15,7 +15,7 @@ Built NEXT to the query development (Props/C03Q.lean, Lemmas/TQuery*.lean), whos
 set_option linter.unusedVariables false
 set_option linter.unusedSimpArgs false
 open Lex PM Ast TP TP2 TS TQ
-namespace TD
+namespace TDM
 
 /-- the statement separator as the lexer emits it -/
 def semiTok : Tok := Tok.single [';'] 0
@@ -139,4 +139,4 @@ def FragStmt (d : Gen.D) : Stmt → Bool
 /-- what may follow a statement -/
 def stopsStmt (d : Gen.D) (rest : List Tok) : Bool := stopsQ d rest
 
-end TD
+end TDM
